@@ -45,6 +45,9 @@ def gen_box(rng, d: int, cls: str | None = None) -> dict:
             return [-1e6, 1e6]
         if c == "offset":
             return [1e6, 1e6 + 1.0]
+        if c == "overshoot":
+            # decimal bounds on which alpha * v + (1 - alpha) * v rounds to a value beyond v for a few per cent of the alphas
+            return list(rng.choice([(-5.12, 5.12), (0.3, 0.9), (-5.2, 5.2), (-1.28, 1.28), (-10.24, 10.24)]))
         if c == "fullprec":
             # bounds that use all 53 bits (0.1234567890123456...): not on any decimal grid a rounding / cache key could assume
             lo = rng.uniform(-1.0, 1.0)
@@ -57,7 +60,7 @@ def gen_box(rng, d: int, cls: str | None = None) -> dict:
         bounds = [one(rng.choice(pool)) for _ in range(d)]
     else:
         b = one(cls)
-        same = rng.random() < 0.7 or cls in ("large", "offset", "tiny")
+        same = rng.random() < 0.7 or cls in ("large", "offset", "tiny", "overshoot")
         bounds = [list(b) if same else one(cls) for _ in range(d)]
     return {"cls": cls, "bounds": bounds}
 
